@@ -120,50 +120,108 @@ def r07_3_references(chk):
     lf = model.LogicalFile
     co = lf.lookup("check_objects")
     chk.consult(co)
-    # the generic walk: a function reachable from check_objects with the shape described above
-    walkers = []
-    for f in cg.reachable([co]):
-        if f.cls is not lf:
+    # the generic walk, found semantically in the inlined summary of check_objects: a raise that is conditional on
+    # `<referenced object> not in <objects of this logical file>` inside loops over the attributes of the own objects -
+    # whichever helpers (functions, closures, comprehensions) the walk is made of
+    from ..terms import (SELF, A, K, NONE, contains, subterms, is_call, call_name, pp, rebuild, find)
+    cs = chk.terms.inline(co, 5)
+
+    def conds_of(e):
+        out = list(e.pc)
+        for lp in e.loops():
+            if isinstance(lp[2], tuple):
+                for x in subterms(lp[2]):
+                    if x[0] == "comp":
+                        for _, _, cc in x[3]:
+                            out.extend(cc)
+        flat = []
+        for c in out:
+            flat.extend(c[1] if c[0] == "and" else [c])
+        return flat
+
+    def chain(e):
+        return [lp[2] for lp in e.loops() if isinstance(lp[2], tuple)]
+    walkers, nf_checks = [], []
+    for e in cs.effects:
+        if e.kind != "raise":
             continue
-        src = norm(f.node)
-        loops_own = "self._eflr_sets" in src and "physical_file" not in src
-        attrs_walk = ".attributes.values()" in src or ".attributes.items()" in src
-        tests = [n for n in walk_local(f.node) if isinstance(n, ast.If) and "isinstance" in norm(n.test)
-                 and "EFLRItem" in norm(n.test) and "not in" in norm(n.test)
-                 and any(isinstance(x, ast.Raise) for b in n.body for x in ast.walk(b))]
-        if loops_own and attrs_walk and tests:
-            walkers.append((f, tests))
+        conds = conds_of(e)
+        mem = [l for l in conds if l[0] == "cmp" and l[1] == "not in"]
+        if not mem:
+            continue
+        m = mem[0]
+        terms = chain(e) + [m[2]]
+        if any(contains(t, lambda x: x[0] == "attr" and x[2] == "attributes") for t in terms):
+            walkers.append((e, m, conds))
+        elif any(contains(t, lambda x: x[0] == "attr" and x[2] == "no_format_object") for t in terms):
+            nf_checks.append((e, m, conds))
     chk.require(bool(walkers), "R07.3", "generic-membership-check-exists",
                 f"no check on the write path verifies that referenced objects belong to the same logical file "
                 f"({len(refs)} reference attributes unchecked)", co.where)
-    for f, tests in walkers:
-        chk.consult(f)
-        # not restricted to some attribute classes / names: the only conditions are isinstance(EFLRItem) and membership
-        t = tests[0].test
-        conj = t.values if isinstance(t, ast.BoolOp) and isinstance(t.op, ast.And) else [t]
-        extra = [norm(c) for c in conj if "isinstance" not in norm(c) and "not in" not in norm(c)]
-        chk.require(not extra and len(conj) == 2, "R07.3", f"check-covers-all-reference-attributes:{f.short}",
-                    f"the membership check is restricted by {extra}: some of the {len(refs)} reference attributes are "
-                    f"not covered", f.where, detail_ok=f"covers all {len(refs)} reference-typed declarations")
-        # list-valued references are unpacked
-        src = norm(f.node)
-        chk.require("isinstance(attr.value, (list, tuple))" in src or "flatten_list" in src, "R07.3",
-                    f"multi-valued-references-covered:{f.short}", "list-valued reference attributes are not unpacked "
-                    "before the membership test", f.where)
-        # the set of own items is complete: built from every set of the own registry
-        chk.require("get_all_eflr_items()" in src, "R07.3", f"own-items-complete:{f.short}",
-                    "the set of own objects is not built from all items of all sets of the logical file", f.where)
-        # no-format records
-        nf_ok = "_no_format_frame_data" in src and "no_format_object" in src
-        chk.require(nf_ok, "R07.3", f"no-format-objects-covered:{f.short}",
+
+    def own_complete(own):
+        srcs = [own]
+        for lit in (("list", ()), ("set", ()), ("call", ("global", "list"), (), ()), ("call", ("global", "set"), (), ())):
+            if contains(own, lit):
+                for e2 in cs.effects:
+                    if e2.kind == "call" and e2.value[1][0] == "attr" and e2.value[1][1] == lit and \
+                            e2.value[1][2] in ("append", "extend", "add", "update"):
+                        srcs.extend(e2.value[2])
+                        srcs.extend(lp[2] for lp in e2.loops() if isinstance(lp[2], tuple))
+        has_sets = any(contains(t, A(SELF, "_eflr_sets")) for t in srcs)
+        has_items = any(contains(t, lambda x: is_call(x, "get_all_eflr_items") or (x[0] == "attr" and
+                                                                                 x[2] == "_eflr_item_list")) for t in srcs)
+        filtered = any(x[0] == "comp" and any(cc for _, _, cc in x[3]) for t in srcs for x in subterms(t))
+        foreign = any(contains(t, lambda x: x[0] == "attr" and x[2] == "physical_file") for t in srcs)
+        return has_sets and has_items and not filtered and not foreign
+    for e, m, conds in walkers:
+        chk.consult(e.func)
+        name = e.func.short
+        terms = chain(e) + [m[2]]
+        def over_attributes(it):
+            return (it[0] == "attr" and it[2] == "attributes") or \
+                (is_call(it, ("values", "items")) and it[1][1][0] == "attr" and it[1][1][2] == "attributes")
+        attr_elems = [x for t in terms for x in subterms(t) if x[0] == "elem" and over_attributes(x[1])]
+        attr_el = attr_elems[0] if attr_elems else None
+        # not restricted to some attribute classes / names: apart from the membership test the conditions only look at
+        # the *value* (is it an object, is it a list)
+        extra = []
+        for c in conds:
+            if c is m or c == m:
+                continue
+            if attr_el is not None:
+                masked = rebuild(c, lambda x: ("const", "<value>") if x == ("attr", attr_el, "value") else x)
+                if contains(masked, attr_el):
+                    extra.append(c)
+                    continue
+            inst = find(c, lambda x: is_call(x, "isinstance", 2) and x[1] == ("global", "isinstance"))
+            for i in inst:
+                classes = {pp(k) for k in (i[2][1][1] if i[2][1][0] == "tuple" else (i[2][1],))}
+                if not classes <= {"EFLRItem", "list", "tuple"}:
+                    extra.append(c)
+        chk.require(not extra, "R07.3", f"check-covers-all-reference-attributes:{name}",
+                    f"the membership check is restricted by {[pp(c)[:60] for c in extra]}: some of the {len(refs)} "
+                    f"reference attributes are not covered", e.where,
+                    detail_ok=f"covers all {len(refs)} reference-typed declarations")
+        multi = any(contains(t, lambda x: is_call(x, "flatten_list") or (is_call(x, "isinstance", 2) and
+                    x[2][1][0] == "tuple" and {pp(k) for k in x[2][1][1]} >= {"list", "tuple"})) for t in terms + conds)
+        chk.require(multi, "R07.3", f"multi-valued-references-covered:{name}", "list-valued reference attributes are not "
+                    "unpacked before the membership test", e.where)
+        chk.require(own_complete(m[3]), "R07.3", f"own-items-complete:{name}",
+                    f"the set of own objects `{pp(m[3])[:80]}` is not built from all items of all sets of the logical "
+                    f"file's own registry", e.where)
+        own_iter = any(contains(t, A(SELF, "_eflr_sets")) or (contains(t, lambda x: x[0] in ("list", "set") and x[1] == ())
+                                                              and own_complete(t)) for t in chain(e))
+        chk.require(own_iter, "R07.3", f"walk-over-own-objects:{name}",
+                    "the walk does not iterate over the objects of the logical file's own registry", e.where)
+        chk.require(any(own_complete(n[1][3]) for n in nf_checks), "R07.3", f"no-format-objects-covered:{name}",
                     "the NO-FORMAT objects referenced by no-format records are not checked for belonging to the "
-                    "logical file", f.where)
-        # every normal path through the walker runs the loops (no early return)
-        g = CFG(f.node)
-        loops = [n for n in g.loop]
+                    "logical file", e.where)
+        # every normal path through the function holding the check runs the loops (no early return)
+        g = CFG(e.func.node)
         rets = [n for n in g.nodes() if g.kind[n] == "return"]
-        chk.require(not rets, "R07.3", f"check-not-bypassable:{f.short}", "the membership check can return early",
-                    f.where)
+        chk.require(not rets or e.func.parent is not None or e.func.cls is None, "R07.3",
+                    f"check-not-bypassable:{name}", "the membership check can return early", e.func.where)
     # frame channels: the existing dedicated check
     ccf = lf.lookup("_check_channels_assigned_to_frames")
     chk.require(ccf is not None and ccf in cg.callees(co), "R07.3", "frame-channels-checked",
@@ -172,16 +230,12 @@ def r07_3_references(chk):
     write = ix.get_method("DLISFile", "write")
     chk.require(co in cg.reachable([write]), "R07.3", "check-on-write-path", "check_objects is not reached from write",
                 write.where)
-    for f, tests in walkers:
-        chk.require(f in cg.callees(co), "R07.3", f"walker-called-unconditionally:{f.short}",
-                    "the membership check is not called from check_objects", co.where)
-        g = CFG(co.node)
-        sc = Scope(ix, co)
-        cn = g.nodes_where(lambda s: any(isinstance(c, ast.Call) and f in ix.resolve_call(c, sc)[0]
-                                         for c in walk_expr(header_expr(s) or ast.Pass())))
-        chk.require(bool(cn) and g.must_pass_through(cn, ENTRY, EXIT, exceptional=False), "R07.3",
-                    f"walker-on-every-path:{f.short}", "check_objects can return without running the membership check",
-                    co.where)
+    for e, m, conds in walkers:
+        # reached unconditionally from check_objects: nothing but loop-element conditions guards the raise
+        glob = [c for c in e.pc if not contains(c, lambda x: x[0] in ("elem", "bound"))]
+        chk.require(not glob, "R07.3", f"walker-on-every-path:{e.func.short}",
+                    f"the membership check runs only under {[pp(c)[:60] for c in glob]}: check_objects can return "
+                    f"without running it", co.where)
     # EFLRAttribute converter: only items of the admissible class are accepted
     ea = ix.get_class("EFLRAttribute")
     conv = ea.lookup("_convert_value")
@@ -193,56 +247,106 @@ def r07_3_references(chk):
 
 
 def r07_4_origins(chk):
+    """Origins, on the value-flow normal form: what every add_* hands to the item constructor as origin reference, how
+    add_origin numbers a new origin and which objects it back-fills - read off the inlined summaries, so that helper
+    methods / properties (self.origins, _adopt_origin_reference, ...) are looked through."""
+    from ..terms import (SELF, A, K, NONE, contains, subterms, is_call, call_name, call_arg, pp, alternatives,
+                         return_alternatives, raise_conditions, attr_stores, mk_bool)
     ix = chk.ix
     model = Model(ix)
     ams = model.add_methods()
     chk.floor("add_* methods", len(ams), 21)
+    oref = ("param", "origin_reference")
+    default = A(SELF, "default_origin_reference")
+    want = (mk_bool("or", [oref, default]), ("ite", oref, oref, default),
+            ("ite", ("cmp", "is", oref, NONE), default, oref))
+    new_ref_call = None
     for f, ic, ctor in sorted(ams, key=lambda t: t[0].name):
-        o = kw(ctor, "origin_reference")
+        su = chk.summary(f)
+        ctor_terms = [c for c in su.all_calls() if call_name(c) == ic.name and call_arg(c, kw="origin_reference") is not None]
+        o = call_arg(ctor_terms[0], kw="origin_reference") if ctor_terms else None
         if f.name == "add_origin":
-            ok = o is not None and norm(o) in ("origin_reference or new_origin_ref", "new_origin_ref")
+            cands = [o] if o is not None else []
+            if o is not None and o[0] == "or":
+                cands = list(o[1])
+            nr = [c for c in cands if is_call(c, "next_available_origin_ref")]
+            ok = bool(nr) and all(c == oref or c in nr for c in cands)
+            new_ref_call = nr[0] if nr else None
             chk.require(ok, "R07.4", "origin-forwarding:add_origin",
-                        f"add_origin passes origin_reference={norm(o) if o else None}", f.where)
+                        f"add_origin passes origin_reference={pp(o) if o else None}", f.where)
             continue
-        ok = o is not None and norm(o) == "origin_reference or self.default_origin_reference"
-        chk.require(ok, "R07.4", f"origin-forwarding:{f.name}",
-                    f"{f.name} passes origin_reference={norm(o) if o is not None else None}; expected the explicit value "
+        chk.require(o in want, "R07.4", f"origin-forwarding:{f.name}",
+                    f"{f.name} passes origin_reference={pp(o) if o is not None else None}; expected the explicit value "
                     f"or the logical file's defining origin", f.where, nontrivial=False)
     lf = model.LogicalFile
-    dor = lf.lookup("default_origin_reference")
-    s = norm(dor.node)
-    chk.require("self.defining_origin" in s and "origin_reference" in s, "R07.4", "default-origin-is-defining-origin",
-                "the default origin reference is not the defining origin's", dor.where)
+    dor = chk.terms.inline(lf.lookup("default_origin_reference"), 3)
+    chk.consult(lf.lookup("default_origin_reference"))
+
+    def own_origins(t):
+        return contains(t, A(SELF, "_eflr_sets")) and contains(t, lambda x: x[0] == "global" and x[1].endswith("OriginSet")) \
+            and not contains(t, lambda x: x[0] == "attr" and x[2] == "physical_file")
+    vals = [t for _, t in return_alternatives(dor)]
+    refs = [t for t in vals if t != NONE]
+    def first_own_origin(x):
+        alts = [a for _, a in alternatives(x) if a != NONE]
+        return bool(alts) and all(a[0] == "sub" and a[2] == K(0) and own_origins(a[1]) for a in alts)
+    ok = bool(refs) and all(t[0] == "attr" and t[2] == "origin_reference" and first_own_origin(t[1]) for t in refs)
+    chk.require(ok, "R07.4", "default-origin-is-defining-origin",
+                f"the default origin reference is `{[pp(t)[:70] for t in refs]}`, not the origin reference of the first "
+                f"ORIGIN object of this logical file's own registry", dor.func.where)
     add = lf.lookup("add_origin")
-    s = norm(add.node)
-    chk.require("self._eflr_sets.get_all_items_for_set_type(eflr_types.OriginSet)" in s and
-                "self.next_available_origin_ref(origin_reference, origins)" in s, "R07.4",
-                "origin-numbering-against-own-origins", "new origin references are not chosen against the origins of "
-                "this logical file", add.where)
+    asu = chk.terms.inline(add, 3, stop=lambda g: g.name == "next_available_origin_ref")
+    ok = False
+    for c in asu.all_calls("next_available_origin_ref"):
+        args = list(c[2]) + [v for _, v in c[3]]
+        ok = ok or (len(args) == 2 and args[0] == oref and own_origins(args[1]))
+    chk.require(ok, "R07.4", "origin-numbering-against-own-origins", "new origin references are not chosen against the "
+                "origins of this logical file", add.where)
     nar = lf.lookup("next_available_origin_ref")
-    chk.consult(nar)
-    s = norm(nar.node)
-    chk.require("while next_available_origin_ref in origins_refs" in s and "raise RuntimeError" in s, "R07.4",
-                "origin-reference-unique", "an origin reference already used in the logical file can be handed out again",
+    ns = chk.summary(nar)
+    origins_p = ("param", nar.param_names[-1])
+
+    def is_refs(t):
+        return t[0] == "comp" and len(t[3]) == 1 and t[3][0][1] == origins_p and not t[3][0][2] and \
+            t[2][0] == "attr" and t[2][2] == "origin_reference"
+    taken = [pc for pc, _ in raise_conditions(ns) if any(l[0] == "cmp" and l[1] == "in" and l[2] == oref and is_refs(l[3])
+                                                          for l in pc)]
+    ok = bool(taken)
+    for conds, t in return_alternatives(ns):
+        if t == oref:
+            ok = ok and any(l[0] == "cmp" and l[1] == "not in" and l[2] == oref and is_refs(l[3]) for l in conds)
+        elif t[0] == "fold":
+            cond = t[5]
+            ok = ok and cond is not None and cond[0] == "cmp" and cond[1] == "in" and cond[2] == ("mu", t[1], t[2]) \
+                and is_refs(cond[3])
+        else:
+            ok = False
+    chk.require(ok, "R07.4", "origin-reference-unique", "an origin reference already used in the logical file can be "
+                "handed out again (a requested one must be refused when taken, a generated one advanced while taken)",
                 nar.where)
     # back-fill: only through the own registry (R18.2 covers the shared one); only items without origin
-    loops = [n for n in walk_local(add.node) if isinstance(n, ast.For) and "_eflr_sets" in norm(n.iter)]
-    ok = bool(loops) and all(norm(n.iter).startswith("self._eflr_sets") for n in loops)
+    fills = [(obj, v, e) for obj, k, v, e in attr_stores(asu) if k == K("origin_reference")]
+    chk.floor("origin back-fill stores in add_origin", len(fills), 2)
+    item_fills = [(obj, v, e) for obj, v, e in fills if obj[0] == "elem"]
+    other_fills = [(obj, v, e) for obj, v, e in fills if obj[0] != "elem"]
+    ok = bool(item_fills)
+    for obj, v, e in item_fills:
+        its = [lp[2] for lp in e.loops() if isinstance(lp[2], tuple)]
+        ok = ok and any(contains(t, A(SELF, "_eflr_sets")) for t in its) and \
+            not any(contains(t, lambda x: x[0] == "attr" and x[2] == "physical_file") for t in its + [obj])
     chk.require(ok, "R07.4", "backfill-own-objects-only",
-                f"add_origin back-fills origin references through {[norm(n.iter) for n in loops]}", add.where)
-    assigns = [n for n in walk_local(add.node) if isinstance(n, ast.Assign)
-               and any(isinstance(t, ast.Attribute) and t.attr == "origin_reference" for t in n.targets)]
-    guarded = [a for a in assigns if "file_header_item" in norm(a) or _under_none_test(add.node, a)]
-    chk.require(len(guarded) == len(assigns) and bool(assigns), "R07.4", "backfill-only-unset-origins",
+                f"add_origin back-fills origin references through "
+                f"{[pp(lp[2])[:50] for _, _, e in item_fills for lp in e.loops()][:3]}, not (only) through this logical "
+                f"file's own registry", add.where)
+    ok = all(("cmp", "is", A(obj, "origin_reference"), NONE) in e.pc for obj, v, e in item_fills) and \
+        all(obj == A(SELF, "file_header_item") for obj, v, e in other_fills)
+    chk.require(ok and bool(item_fills), "R07.4", "backfill-only-unset-origins",
                 "add_origin overwrites origin references that were already set", add.where)
-
-
-def _under_none_test(root, stmt) -> bool:
-    for n in ast.walk(root):
-        if isinstance(n, ast.If) and "origin_reference is None" in norm(n.test) and any(x is stmt for b in n.body
-                                                                                        for x in ast.walk(b)):
-            return True
-    return False
+    first_only = all(any(contains(l, lambda x: x[0] == "cmp" and x[1] == "==" and x[3] == K(1)) for l in e.pc)
+                     for obj, v, e in fills)
+    chk.require(first_only, "R07.4", "backfill-only-for-the-defining-origin",
+                "origin references are back-filled when an origin other than the first one is added", add.where,
+                nontrivial=False)
 
 
 def r07_5_iflr_reference(chk):
